@@ -101,7 +101,12 @@ def run(run):
         raise Infra("Proto: invocation semantics differs from the sequential program (%s)\n%s" % (res["violated"], res["out"][-1500:]))
     account_mc(run, res)
     gen = '-DVP_GEN="%s"' % os.path.join(gd, "proto_gen.c")
-    real = build_driver(run, "proto_real", "proto_main.c", [], extra_flags=[gen])
+    try:
+        real = build_driver(run, "proto_real", "proto_main.c", [], extra_flags=[gen])
+    except Infra as e:
+        # the generated programs use every macro as a single statement (unbraced branches included): the header promises that
+        raise Violation("valid protothread programs do not compile against the header: %s" % str(e)[-600:],
+                        replay=save_replay(run, "real-build", {"property": run.pid, "what": "build of the generated programs", "compiler": str(e)[-4000:]}))
     seq = build_driver(run, "proto_seq", "proto_main.c", [], extra_flags=[gen, "-DPT_SEQ"])
     t1 = exec_script(run, real, [], "", run.path("real.ndjson"), "real-macros", timeout=300)
     t2 = exec_script(run, seq, [], "", run.path("seq.ndjson"), "sequential-standins", timeout=300)
